@@ -137,7 +137,8 @@ struct MFiles {
 }
 
 const PIECES: [&str; 10] = ["src", "debian", "*", "?", "lib", ".c", "/", "x", "\\*", "doc"];
-const LICENSES: [&str; 6] = ["GPL-2+", "MIT", "Apache-2.0", "Expat", "GPL-2+ or MIT", "GPL-2+ with OpenSSL exception"];
+/// Short names compare exactly: the pool contains names that differ only in letter case.
+const LICENSES: [&str; 10] = ["GPL-2+", "MIT", "Apache-2.0", "Expat", "GPL-2+ or MIT", "GPL-2+ with OpenSSL exception", "expat", "EXPAT", "gpl-2+", "mit"];
 
 fn gen_pattern(r: &mut Rng) -> String {
     match r.below(6) {
